@@ -353,3 +353,58 @@ Theorem two_arg_expr_arg_lost_refuted :
     batch (APercentile (1 # 2)) MExpr (sql_cells_asis ShMul2 (APercentile (1 # 2)) cells) = Some (RNum 0) /\
     spec_batch (APercentile (1 # 2)) MExpr (map (eval_arg ShMul2) cells) = Some (RNum 4).
 Proof. exists [Cell (VInt 1); Cell (VInt 4); Cell (VInt 2)]. split; vm_compute; reflexivity. Qed.
+
+(* ---------- select lists: every aggregate call of a query sees ITS OWN argument expression ---------- *)
+Definition field_batch (cells : list cell) (fd : sfield) : option res :=
+  let '(f, m, sh) := fd in batch f m (map (eval_arg sh) cells).
+
+Lemma sel_fold_cons : forall cells f m sh fs g gs,
+  fold_left (sel_add ((f, m, sh) :: fs)) cells (g :: gs) =
+  fold_left (ga_add f m) (map (eval_arg sh) cells) g :: fold_left (sel_add fs) cells gs.
+Proof.
+  induction cells as [|c cells IH]; intros f m sh fs g gs; [reflexivity|].
+  change (fold_left (sel_add ((f, m, sh) :: fs)) (c :: cells) (g :: gs))
+    with (fold_left (sel_add ((f, m, sh) :: fs)) cells (ga_add f m g (eval_arg sh c) :: sel_add fs gs c)).
+  rewrite IH. reflexivity.
+Qed.
+
+Lemma sel_results_from : forall fs cells,
+  sel_results fs (fold_left (sel_add fs) cells (sel_init fs)) = map (field_batch cells) fs.
+Proof.
+  induction fs as [|[[f m] sh] fs IH]; intros cells; [reflexivity|].
+  unfold sel_init. simpl map. rewrite sel_fold_cons. simpl sel_results.
+  f_equal. apply IH.
+Qed.
+
+Theorem sel_batch_fields : forall fs cells, sel_batch fs cells = map (field_batch cells) fs.
+Proof. intros fs cells. unfold sel_batch. apply sel_results_from. Qed.
+
+Theorem sel_run_fields : forall fs bs,
+  sel_run fs (sel_init fs) bs = map (fun b => map (field_batch b) fs) bs.
+Proof.
+  intros fs bs. induction bs as [|b bs IH]; [reflexivity|].
+  simpl. rewrite sel_results_from, IH. reflexivity.
+Qed.
+
+(* the j-th call of the select list yields the definition applied to ITS argument, evaluated per row;
+   the other calls of the list (their aggregates, their arguments) do not occur in the right-hand side *)
+Theorem select_list_correct : forall fs cells j f m sh,
+  nth_error fs j = Some (f, m, sh) ->
+  f <> AStdDev -> m <> MStar ->
+  match f with WStdDev | WStdDevS | WVar | WVarS => False | _ => True end ->
+  exists r, nth_error (sel_batch fs cells) j = Some r /\
+            ores_eq r (spec_batch f m (map (eval_arg sh) cells)).
+Proof.
+  intros fs cells j f m sh Hj Hf Hm Hw.
+  exists (batch f m (map (eval_arg sh) cells)). split.
+  - rewrite sel_batch_fields. apply (map_nth_error (field_batch cells) j fs Hj).
+  - apply batch_correct; assumption.
+Qed.
+
+(* two calls over the same column with different arguments are not mixed up: sum(d.x * 2), sum(d.x + 1) over 1, -4, 10 *)
+Lemma select_list_example :
+  sel_batch [(ASum, MExpr, ShAff OMul 2); (ASum, MExpr, ShAff OAdd 1);
+             (AMin, MExpr, ShAff OMul (5 # 2)); (AFirst, MExpr, ShAff OAdd 1)]
+            [Cell (VInt 1); Cell (VInt (-4)); Cell VNull; Missing; Cell (VInt 10)]
+  = [Some (RNum 14); Some (RNum 10); Some (RNum (-10)); Some (RVal (VFlt 2))].
+Proof. vm_compute. reflexivity. Qed.
